@@ -9,8 +9,10 @@ ASSUMPTIONS = [
     "a request limit is empty or one atom set for all three families; the system harness only produces empty limits (an op for "
     "limits is not planned: it needs a crafted CSR exchange), so applyLimit is exercised by the theorems only",
     "wants_update: the f64 ratio tests are restated in integer arithmetic (equivalent for |seconds| < 2^45)",
-    "sync_converges_partial is about the class's key-state machine (Ca/KeySync.lean) against a parent that answers every request "
-    "with a certificate for the offered resources, fixed clock; its tie to the two-aggregate exchange is the lock-step run",
+    "sync_converges: Ca/Exchange.lean models ca_sync_parent on two real aggregates (Pair.sync: list/issue/revoke of the parent, "
+    "UpdateEntitlements/UpdateRcvdCert/KeyRollFinish/DropResourceClass of the child); exchange_idempotent is proved for every "
+    "pair, convergence on concrete pairs only (exchange_converges_instances) and, for every well-formed key state, on the class "
+    "key-state machine with an answering parent and a fixed clock (sync_converges_partial)",
     "shrink_active_child is about the class: every issued certificate is kept, narrowed or removed exactly as the intersection "
     "demands, in every reachable state; the link from 'key in use by an active child' to 'issued in the class' additionally needs "
     "that no two children present the same key (model corner shown as an example; the oracle ActiveChildHasCert checks the "
@@ -41,15 +43,21 @@ MANIFEST = {
             "tree's stale entry, the withdrawn certificate of an active child and the orphan left published are kept as "
             "pinned_add_issued_leaves_stale_entry, pinned_shrink_withdraws_active_child, pinned_shrink_orphans_certificate); a converged child's "
             "sync emits no event and changes nothing (sync_idempotent, for every state); every well-formed key state converges within two "
-            "rounds and two syncs to one key with exactly the offered resources and no open request (sync_converges_partial). Tied to "
+            "rounds and two syncs to one key with exactly the offered resources and no open request (sync_converges_partial); on the two-aggregate exchange a converged pair is left unchanged by a further sync "
+            "(exchange_idempotent, every pair) and concrete pairs converge for every kind of entitlement change (exchange_converges_instances). Tied to "
             "the code by lock-step execution against an in-process krill and by the theorem predicates evaluated on the "
             "implementation's own state",
-    "note": "Kernel-checked theorems are about the model. The published level of never_overclaims is evaluated by the oracle "
-            "(NoOverclaimPublished) and rests on C01's objects_mirror; sync_converges is proved on the class key-state machine, not on "
-            "the two-aggregate exchange. F-C02-1 and F-C03-1 are fixed (bb96d233, 43d7eca0): their scenarios stay in the corpus and "
-            "fail the check if the behaviour returns. Open: F-C04-3 (a mapping to a class the parent does not have can shadow the class "
-            "a child is certified under; its syncs then never become idempotent). rpki-rs resource arithmetic, real certificates and "
-            "the wall clock are outside the model.",
+    "note": "Kernel-checked theorems are about the model. Still unproved: (1) sync_converges for an ARBITRARY reachable parent/child "
+            "pair - proved are idempotence for every pair (exchange_idempotent, sync_idempotent), convergence of every well-formed key "
+            "state of one class against an answering parent (sync_converges_partial) and convergence of concrete pairs for first "
+            "delegation, partial shrink, shrink to nothing, regain, two classes, a class-name mapping and a child key roll "
+            "(exchange_converges_instances); the link 'every class of the child follows the key-state machine under Pair.sync' and "
+            "hierarchies deeper than two levels are covered by the lock-step run only; (2) the published level of never_overclaims "
+            "is evaluated by the oracle (NoOverclaimPublished) and rests on C01's objects_mirror; (3) the state-level ActiveChildHasCert "
+            "needs that no two children present the same key. F-C02-1 and F-C03-1 are fixed (bb96d233, 43d7eca0): their scenarios stay "
+            "in the corpus and fail the check if the behaviour returns. Open: F-C04-3 (a mapping to a class the parent does not have can "
+            "shadow the class a child is certified under; its syncs then never become idempotent). rpki-rs resource arithmetic, real "
+            "certificates and the wall clock are outside the model.",
     "technique": "Lean 4 proof (invariants by induction over command histories, finite abstraction + decide, concrete counter-examples) "
                  "+ correspondence check",
 }
